@@ -325,7 +325,39 @@ def r_binding(ctx, model):
               key="Calculator.freq_array")
 
 
+def r_constructor(ctx, model):
+    """the strain fractions and the calculator reach the formulas as given: the constructor stores its arguments unchanged
+    (the other rules start from `self.e = (e_i, e_j)`; this rule discharges that starting point)"""
+    from ..sym import Tup, RaisedV
+    seeds, intr, calc = physics_seeds(model)
+    for cref in (LONG, OFFD):
+        for key in list(seeds):
+            if key[0] in (LONG, OFFD) and key[1] in ("e", "calculator"):
+                del seeds[key]
+        ev = Ev(model, seeds, intr, ctx=ctx)
+        owner, f, _ = model.find_member(cref, "__init__")
+        if f is None:
+            raise AnalysisError(f"anchor vanished: {cref}.__init__")
+        w = model.where(f"{owner}.__init__", f)
+        e_in = Tup([E0, E1])
+        try:
+            obj = ev.construct(cref, [calc, e_in], {})
+            e_got = ev.get_attr(obj, "e")
+            c_got = ev.get_attr(obj, "calculator")
+        except RaisedV as ex:
+            ctx.violation(f"{cref.split(':')[1]}.__init__.raises", w, "the contribution object is constructed", f"raises {ex.exc_name}",
+                          f"constructing {cref.split(':')[1]} with valid strain fractions raises {ex.exc_name}")
+            continue
+        items = e_got.items if isinstance(e_got, Tup) else None
+        same = items is not None and len(items) == 2 and all(sp.simplify(as_sym(a) - b) == 0 for a, b in zip(items, (E0, E1)))
+        ctx.check(same and c_got is calc, f"{cref.split(':')[1]}: constructor keeps (e_i, e_j) and the calculator as given", w,
+                  expected="self.e = e; self.calculator = calculator", found=f"e = {items if items is not None else e_got}; calculator {'kept' if c_got is calc else 'replaced'}",
+                  explanation="the strain fractions that enter the prefactors 1/(5 e^2), 1/(3 e), 1/(15 e_i e_j) are not the ones the object "
+                              "was constructed with (clamped, rounded, reordered or rescaled in the constructor)", key=f"{cref.split(':')[1]}.init")
+
+
 RULES = [
+    ("R01.12", "constructors store the strain fractions and the calculator unchanged", r_constructor),
     ("R01.1-4", "zero-point and thermal contributions of both non-shear classes equal the strain derivatives of F "
                 "(AVG-linear normal form, quantity calculus; reference derived by differentiating F)", r_formulas),
     ("R01.5", "isothermal value = zero-point + thermal (+ P_total - P_static for off-diagonal)", r_total),
